@@ -13,7 +13,8 @@ from ..machine import run_units
 from .. import replay_printenv, reparse
 from .args import parse
 
-MODULES = ["harness.corpus.basic", "harness.corpus.configs", "harness.corpus.memory", "harness.corpus.shapes"]
+MODULES = ["harness.corpus.basic", "harness.corpus.configs", "harness.corpus.memory", "harness.corpus.shapes",
+           "harness.corpus.nameclash"]
 
 
 def main():
